@@ -1328,10 +1328,11 @@ func (x *world) rescanRunning() bool {
 	if x.client.RescanActive() {
 		return true
 	}
-	// the backend has finished but the wallet has not processed
-	// RescanFinished yet: from the wallet's side the rescan is still running
-	// (disconnects are ignored, block hashes are still being caught up)
-	return len(x.client.RescanStarts) > 0 && x.w != nil && !x.w.ChainSynced()
+	// From the wallet's side the start-up synchronisation lasts until it has
+	// processed RescanFinished: until then it ignores disconnects (also those
+	// queued while it waited to retry a failed attempt) and is still catching
+	// up block hashes.
+	return x.w != nil && !x.w.ChainSynced()
 }
 
 // crashsync: everything the node has announced is delivered and processed,
